@@ -1,5 +1,6 @@
 import Hgxv.Model.Wire
 import Hgxv.Model.C10
+import Hgxv.Model.C10Rel
 /-! Line protocol for C10.  State: current undirected input (nodes, hyperedges) and directed input.
   `load <nodes> <edges natss>`           -> `ok`
   `dload <sources natss> <targets natss>` -> `ok`
@@ -12,7 +13,13 @@ import Hgxv.Model.C10
   `line <i|j> <s> <0|1>`                 -> `<vertices> <adjacency> <id table natss> <number of _distance calls>` | `exc`
   `dline <i|j> <s> <0|1>`                -> `<vertices> <adjacency> <id table src|tgt natss>` | `exc`
   `simp`                                 -> natss (lexicographically sorted)
-  `sim <a> <b>`                          -> `<intersection> <jaccard|exc> <jaccard distance|exc>` -/
+  `sim <a> <b>`                          -> `<intersection> <jaccard|exc> <jaccard distance|exc>`
+  `deg`                                  -> `<vertex>:<degree>` for the vertices of the bipartite graph, in vertex order
+  `cdeg <0|1>`                           -> `<vertex>:<degree>` for the vertices of the clique projection, in vertex order
+  `gram`                                 -> `<B·Bᵀ natss> <Bᵀ·B natss> <B natss>` for the binary incidence matrix `B` of the input
+  `lineu`                                -> `<vertices> <adjacency>` | `exc`: `line_graph` with an unknown `distance`
+                                            (on the loaded incident table, if any)
+  `dlineu`                               -> `<vertices> <adjacency>` | `exc`: `directed_line_graph`, unknown `distance` -/
 open Wire C10
 
 structure St where
@@ -84,6 +91,24 @@ def step (s : St) : List String → St × String
                       showNatss ((idTable s.des).map (·.2.2)))
       | none => (s, "exc")
     | _, _ => (s, "bad-op")
+  | ["deg"] =>
+    let g := (bipartite s.nodes s.es).g
+    (s, showList "," "-" (fun (p : BV × Nat) => showBV p.1 ++ ":" ++ toString p.2) ((AL.keys g.nodes).zip g.degrees))
+  | ["cdeg", k] =>
+    let g := clique (k == "1") s.nodes s.es
+    (s, showList "," "-" (fun (p : Nat × Nat) => toString p.1 ++ ":" ++ toString p.2) ((AL.keys g.nodes).zip g.degrees))
+  | ["gram"] => (s, showNatss (nodeGram s.nodes s.es) ++ " " ++ showNatss (edgeGram s.nodes s.es) ++ " " ++
+                    showNatss (incMatrix s.nodes s.es))
+  | ["lineu"] =>
+    match (match s.inc with
+           | some adj => lineGraphUnknownFrom s.es adj
+           | none => lineGraphUnknown s.nodes s.es) with
+    | some r => (s, showGraph toString r.g)
+    | none => (s, "exc")
+  | ["dlineu"] =>
+    match directedLineGraphUnknown s.des with
+    | some g => (s, showGraph toString g)
+    | none => (s, "exc")
   | ["simp"] => (s, showNatss (sortLex (simplicial s.es)))
   | ["sim", a, b] =>
     match nats? a, nats? b with
